@@ -8,7 +8,7 @@ RULE = ('every ordered pair (g1, g2) of HRGs from a bounded family over shared n
         'e0,e1 (1-2 start rules out of 7 skeleton/labelling instances, one with an isolated internal node, 0-1 rule for X out of 4, one rule for Y, rules '
         'for a binary nonterminal W with externals in both orders) x nonterminal naming schemes (plain; the '
         '"X"+"Y,Z" / "X,Y"+"Z" clash; a terminal literally named like a pair; all natural pair names and their _1 variants taken; a shared terminal '
-        'name with equal / different type; a production listed twice) x edge insertion order reversed in g2: the multiset of derivations (depth <= d) of '
+        'name with equal / different type; a production listed twice; a nonterminal name carrying another type in g2, alone and together with a terminal conflict) x edge insertion order reversed in g2: the multiset of derivations (depth <= d) of '
         'conjoin_hrgs(g1,g2) (each rule instance identified by its terminals, node ids, external ids and nonterminal-edge ids) must equal the multiset of conjoinable pairs of derivations, computed by the harness '
         'from g1 and g2; paired names distinct and fresh; ValueError exactly for a genuine terminal conflict. '
         'Non-trivial = pair with >= 1 paired derivation.')
@@ -38,7 +38,7 @@ ARITY = {'S': 0, 'X': 1, 'Y': 1, 'W': 2}
 
 def bounds(tier):
     return {'derivation_depth': 3 if tier == 'quick' else 4, 'start_rules': '1-2 of 7', 'X_rules': '0-1 of 4',
-            'naming_schemes': 7, 'edge_orders': 2}
+            'naming_schemes': len(SCHEMES), 'edge_orders': 2}
 
 
 def family():
@@ -51,7 +51,8 @@ def family():
     return out
 
 
-SCHEMES = ('plain', 'clash', 'terminal-named-like-pair', 'shared-terminal-same-type', 'shared-terminal-other-type', 'pair-and-suffix-taken', 'duplicate-production')
+SCHEMES = ('plain', 'clash', 'terminal-named-like-pair', 'shared-terminal-same-type', 'shared-terminal-other-type', 'pair-and-suffix-taken', 'duplicate-production',
+           'nonterminal-name-other-type', 'nonterminal-name-other-type+shared-terminal-other-type')
 
 
 def gen_cases(tier, seed):
@@ -69,6 +70,9 @@ def describe(case):
 def names_for(scheme, side):
     if scheme == 'clash':
         return {'S': 'S', 'X': 'X', 'Y': 'X,Y', 'W': 'W'} if side == 1 else {'S': 'S', 'X': 'Y,Z', 'Y': 'Z', 'W': 'W'}
+    if scheme.startswith('nonterminal-name-other-type') and side == 2:
+        # g2 calls its binary nonterminal 'Y' and its unary one 'W': the names of g1, with other types (legal: pairs are renamed)
+        return {'S': 'S', 'X': 'X', 'Y': 'W', 'W': 'Y'}
     return {'S': 'S', 'X': 'X', 'Y': 'Y', 'W': 'W'}
 
 
@@ -102,9 +106,9 @@ def mk(side, spec, scheme, reverse, wrules):
         ttype = [T]
         if scheme == 'terminal-named-like-pair' and side == 1 and lhs == 'S':
             tl = '<X,X>' if idx % 2 == 0 else '<S,S>'
-        if scheme in ('shared-terminal-same-type', 'shared-terminal-other-type') and lhs == 'S':
+        if (scheme in ('shared-terminal-same-type', 'shared-terminal-other-type') or scheme.endswith('+shared-terminal-other-type')) and lhs == 'S':
             tl = 'shared'
-            if scheme == 'shared-terminal-other-type' and side == 2:
+            if scheme.endswith('shared-terminal-other-type') and side == 2:
                 ttype = [T, T]
         tlabel = EdgeLabel(tl, ttype, is_terminal=True)
         tedge = Edge(tlabel, [V[nodes[0]]] * len(ttype))
@@ -202,7 +206,7 @@ def judge(a, b, scheme, reverse, w1, w2, depth, r):
     key = case
     g1 = mk(1, a, scheme, False, w1)
     g2 = mk(2, b, scheme, reverse, w2)
-    expect_conflict = scheme == 'shared-terminal-other-type'
+    expect_conflict = scheme.endswith('shared-terminal-other-type')
     try:
         c = conjoin_hrgs(g1, g2)
     except ValueError as e:
